@@ -5,6 +5,7 @@ from ..astutil import dotted, method_call
 from ..cfg import cfg_of, fact_key, norm, walk_own
 from ..consteval import fold_in
 from ..mutate import B, M
+from .c03 import toc_lookup_rules
 from ..symexec import paths_of, paths_of_block
 
 PROP = 'C04'
@@ -22,7 +23,7 @@ EXPLANATION = (
     'the request carries the same command and id; R7 decode: id at id_index, value after it, one string stored and passed once to each of '
     'the three fan-outs; R8 requests travel through one FIFO queue with a single consumer.')
 ASSUMPTIONS = ['queue.Queue is FIFO and thread safe', 'the device echoes the variable id in bytes 1..2 of MISC replies']
-FLOORS = {'R1': 3, 'R2': 2, 'R3': 6, 'R4': 9, 'R5': 4, 'R6': 16, 'R7': 7, 'R8': 4}
+FLOORS = {'R9': 5, 'R1': 3, 'R2': 2, 'R3': 6, 'R4': 9, 'R5': 4, 'R6': 16, 'R7': 7, 'R8': 4}
 
 
 def check(ctx):
@@ -243,6 +244,10 @@ def check(ctx):
     mk = [c for c in walk_own(pi.node) if isinstance(c, ast.Call) and dotted(c.func) == '_ParamUpdater']
     st_ = [c for c in walk_own(pi.node) if method_call(c, 'start') and norm(c.func.value) == 'self.param_updater']
     ctx.inst('R8', pi, 'one-updater', len(mk) == 1 and len(st_) == 1, 'exactly one updater thread per Param object')
+
+
+    # ---- R9: table look-ups used by this subsystem (shared rule, see C03.R8) -----------------
+    toc_lookup_rules(ctx, 'R9')
 
 
 def flatten_add(node):
